@@ -61,7 +61,7 @@ def curve_trace(sc):
             cw = s_stretch(N, ts, tb, stagger="w", Vstretching=vs)
             a, b1 = _q(cr, 1 << 24)
             b, b2 = _q(cw, 1 << 24)
-            ev.append(dict(ev="curve", cr=a, cw=b, bad=bool(b1 or b2), p=p))
+            ev.append(dict(ev="curve", cr=a, cw=b, bad=bool(b1 or b2), p=repr(p)))
             hc = p["hc"]
             H = np.array([[h, h, h, h], [h, h / 2 + hc, h, h], [h, h, h, h], [h, h, h, h]], float)
             if p["fromfile"]:
